@@ -109,7 +109,43 @@ def eval_and_deriv(ctx, bz, rng, reps):
             e1 = np.abs(vals[0][m1][:, :, 0] - Pn[m1][:, :, -1]).max(axis=1) / np.maximum(1, np.abs(Pn[m1]).max(axis=(1, 2))) if m1.any() else np.zeros(0)
             ctx.check_array("ends_at_last_control_point", "n=%d,d=%d" % (n, d), e1, 1e-12, {"P": Pn[m1].reshape(-1, d * (n + 1))})
             ctx.distinct(np.concatenate([Pn.reshape(R, -1), Tn[:, None], tn[:, None]], axis=1))
+    numeric_histories(ctx, bz, rng, 12 if ctx.quick else 300)
     ctx.sample({"what": "Bezier.eval/deriv vs exact Bernstein", "degrees": degs})
+
+
+def numeric_histories(ctx, bz, rng, reps):
+    """numeric (DM) control points and numeric times, several evaluations / derivatives on the SAME curve object:
+    the object must behave as a value (no evaluation may change what later ones return)"""
+    for _ in range(reps):
+        n, d = int(rng.integers(1, 8)), int(rng.integers(1, 4))
+        Pn = O.signed_loguniform(rng, 1e-2, 10, (d, n + 1))
+        T = float(O.loguniform(rng, 0.1, 10, 1)[0])
+        B = bz.Bezier(ca.DM(Pn), T)
+        calls = []
+        for _k in range(6):
+            t = float(rng.uniform(-0.2, 1.2) * T)
+            m = int(rng.integers(0, n + 1))
+            try:
+                val = B.eval(t) if m == 0 else B.deriv(m).eval(t)
+                val = np.array(ca.DM(val).full()).ravel()
+            except Exception as e:
+                ctx.violation("raises_numeric_bezier", "Bezier", {"exception": type(e).__name__, "message": str(e)[:200], "n": n, "d": d, "m": m})
+                val = None
+            calls.append((t, m, val))
+        errs = []
+        for t, m, val in calls:
+            if val is None or len(val) != d:
+                errs.append(np.inf)
+                continue
+            e = 0.0
+            for k in range(d):
+                ref = float(exact_curve_derivative(Pn[k], T, t, m))
+                sc = max(abs(ref), float(np.abs(Pn[k]).sum()) * (2.0 ** m) * max(1.0, abs(t / T), abs(1 - t / T)) ** n / T ** m, 1e-300)
+                e = max(e, abs(val[k] - ref) / sc)
+            errs.append(e)
+        ctx.check_array("numeric_curve_is_a_value", "Bezier", errs, 1e-9, {"call_index": np.arange(len(errs)), "t": np.array([c[0] for c in calls]), "order": np.array([c[1] for c in calls])})
+        Pafter = np.array(ca.DM(B.P).full())
+        ctx.check_array("control_points_unchanged_by_evaluation", "Bezier", [np.abs(Pafter - Pn).max() if Pafter.shape == Pn.shape else np.inf], 0.0, {"n": [n], "d": [d]})
 
 
 def solvers(ctx, bz, rng, N):
@@ -124,7 +160,7 @@ def solvers(ctx, bz, rng, N):
         W0 = O.signed_loguniform(rng, 1e-2, 10, (N, nb))
         W1 = O.signed_loguniform(rng, 1e-2, 10, (N, nb))
         W0[rng.random(N) < 0.05] = 0
-        Tn = O.loguniform(rng, 0.2, 20, N)
+        Tn = O.loguniform(rng, 0.005, 2e4, N)  # all durations T > 0: from milliseconds to hours
         (Pn, r0, r1), _ = ev(W0, W1, Tn)
         fin = np.isfinite(Pn).all(axis=(1, 2)) & np.isfinite(r0).all(axis=(1, 2)) & np.isfinite(r1).all(axis=(1, 2))
         # natural scale of the k-th derivative condition: control-point magnitude / T^k
